@@ -9,7 +9,7 @@ from . import tlagen, tlaval, core, explore
 
 DAY1 = datetime(2019, 12, 16)            # a Monday; 2019-12-25 is day 10, 2020-01-01 day 17, 2020-01-20 day 36
 CLAUSE_PROPS = {"steps": ["C18"], "window_short": ["C18"], "obs": ["C18"], "shape": ["C18"], "bounds": ["C18"],
-                "quotes": ["C18"], "rate": ["C18"], "construct": ["C18"], "table": []}
+                "quotes": ["C18"], "rate": ["C18"], "construct": ["C18"], "table": [], "state_window": ["C18"]}
 
 
 _CLK = {"intraday": False, "day1": DAY1}
@@ -216,6 +216,49 @@ def replay_chunk(ctx, texts):
     return out
 
 
+def state_window_chunk(ctx, texts):
+    """StateWindow.tla behaviours replayed on a real tradingenv.state.State"""
+    from . import impl
+    from tradingenv.state import State
+    from tradingenv.events import EventNewObservation
+    out = {"n": 0, "ops": 0, "fails": [], "classes": {}, "sample": None}
+    for text in texts:
+        s = tlaval.parse_state(text)
+        if s["n"] != ctx["maxops"]:
+            continue
+        cfg, ops = s["cfg"], list(s["hist"])
+        st = State(["a", "b"], window=cfg["w"], stride=(cfg["s"] or None), max_=100.0)
+        bad = None
+        for i, op in enumerate(ops):
+            out["ops"] += 1
+            if op["op"] == "observe":
+                o, v = impl.classify(lambda: st.process_EventNewObservation(
+                    EventNewObservation(DAY1 + timedelta(minutes=i), {"a": float(op["v"]), "b": 10.0 * op["v"]})))
+            else:
+                o, v = impl.classify(lambda: st.reset())
+            if o != "ok":
+                bad = (i, "%s raised %r" % (op["op"], v))
+                break
+            exp = [[float(x), 10.0 * x] for x in op["rows"]]
+            if not exp:
+                continue          # nothing observed yet: the observation is not defined
+            o2, got = impl.classify(lambda: st(verify=True))
+            if o2 != "ok" or np.asarray(got).tolist() != exp:
+                bad = (i, "after %s the state is %r, the last %d observations thinned by stride %s are %s" % (
+                    [(x["op"], x["v"]) for x in ops[: i + 1]], got if o2 != "ok" else np.asarray(got).tolist(), cfg["w"], cfg["s"] or None, exp))
+                break
+            if tuple(np.asarray(got).shape) != tuple(st.space.shape):
+                bad = (i, "state of shape %s, declared %s" % (np.asarray(got).shape, st.space.shape))
+                break
+        out["n"] += 1
+        k = "w%d/s%d" % (cfg["w"], cfg["s"])
+        out["classes"][k] = out["classes"].get(k, 0) + 1
+        if bad and len(out["fails"]) < 20:
+            out["fails"].append({"clause": "state_window", "key": "state_window/w%d/s%d" % (cfg["w"], cfg["s"]), "detail": bad[1],
+                                 "case": {"kind": "state-window", "cfg": cfg, "ops": [(x["op"], x["v"]) for x in ops[: bad[0] + 1]]}})
+    return out
+
+
 def c18(tier, seed):
     rep = core.Report("C18", tier, seed)
     ndays = 19 if tier == "quick" else 24
@@ -237,6 +280,14 @@ def c18(tier, seed):
     module, cfg, inv = model_small(nd, h2, {12, 5}, {4, 0}, [(0, 0), (61, 75), (64, 72)])
     explore.explore_and_replay(rep, "tabular-folds", module, cfg, ("harness.tabular_check", "replay_chunk"), {"holidays": h2},
                                owned, inv, [], chunk=2, workers=2)
+    # the windowed State on its own (StateWindow.tla; every path, no VIEW): the queue is the last `window` observations of the
+    # object's life padded with the first one, parse() thins it by the stride from the most recent row backwards
+    mo = 6 if tier == "quick" else 7
+    defs = {"Windows": {1, 2, 3, 4}, "Strides": {0, 2, 3}, "Vals": {1, 2, 3}}
+    inv = ["Shape", "Latest", "WindowDef"]
+    explore.explore_and_replay(rep, "state-window", tlagen.mc_module("MC", "StateWindow", defs),
+                               tlagen.cfg(defs, {"MaxOps": mo}, invariants=inv), ("harness.tabular_check", "state_window_chunk"),
+                               {"maxops": mo}, owned, inv, [], chunk=400, workers=4)
     # a range containing a one-off closure that is not in the exchange's holiday RULES (NYSE, 2018-12-05: national day of
     # mourning): day 1 is Monday 2018-11-26, the closure is day 10
     _CLK["day1"] = datetime(2018, 11, 26)
